@@ -61,12 +61,13 @@ Proof. exact float_to_decimal_fits_or_error. Qed.
 Print Assumptions C13_float_to_decimal_fits_or_error.
 
 (* 5a. float -> DECIMAL(p,s) at full strength where the product v * 10^s is representable: for every
-      float (-1)^neg * m * 2^e of any format whose scaled mantissa m * 5^s fits the 53 bits of an f64,
-      the cast IS round_half_away(v * 10^s) of the exact binary value when that fits the precision,
-      an error otherwise *)
-Theorem C13_float_to_decimal_exact_when_representable : forall oc f d p s bits neg m e,
+      float (-1)^neg * m * 2^e of any format, m = a * 2^t, whose scaled odd part a * 5^s fits the 53
+      bits of an f64, the cast IS round_half_away(v * 10^s) of the exact binary value when that fits
+      the precision, an error otherwise *)
+Theorem C13_float_to_decimal_exact_when_representable : forall oc f d p s bits neg m e a t,
   std_dty d -> 0 <= p <= d_maxp d -> 0 <= s <= 22 ->
-  decode f bits = FFin neg m e -> 0 <= m -> m * 5 ^ s < 2 ^ 53 -> -1074 <= e -> e + s <= 971 ->
+  decode f bits = FFin neg m e -> m = a * 2 ^ t -> 0 <= a -> 0 <= t -> m < 2 ^ 53 -> a * 5 ^ s < 2 ^ 53 ->
+  -1074 <= e -> e + t + s <= 971 ->
   float_to_decimal oc f d p s bits =
   (let r := signed neg (if 0 <=? e then m * 10 ^ s * 2 ^ e else rha_div (m * 10 ^ s) (2 ^ (- e))) in
    if Z.abs r <? 10 ^ p then Ok r else Err).
